@@ -33,7 +33,7 @@ ASSUMPTIONS = [
     "watchdog aborts (a task blocked on a real lock held by a parked thread) are inconclusive, never violations",
     "context_behavior and template_cache_size are process-wide settings, fixed per case",
 ]
-BOUNDS = {"quick": {"hyp": 480, "single_pairs": 18, "double_pairs": 5}, "thorough": {"hyp": 40000, "single_pairs": 30, "double_pairs": 5}}
+BOUNDS = {"quick": {"hyp": 480, "single_pairs": 18, "double_pairs": 3}, "thorough": {"hyp": 40000, "single_pairs": 30, "double_pairs": 5}}
 CFG = {"provide": True, "inject": True, "errors": False, "isfilled": False, "max_nodes": 3, "max_comps": 2, "max_depth": 2, "provide_weight": 3, "inject_pct": 70, "ticks": True, "hooks": False, "elems": True, "idecho": True}
 
 CFG_ASSETS = {"assets": True, "errors": False, "isfilled": False, "max_nodes": 3, "max_comps": 3, "max_depth": 2, "elems": True}
@@ -553,9 +553,10 @@ _ASSETS_INH = {
 DOUBLE_PAIRS = [
     {"tasks": [{"t": "fail", "program": _PROV2, "at": 3}, {"t": "render", "program": _PROV2}], "mode": "django", "cache_size": 2, "focus": ["provide.py"]},
     {"tasks": [{"t": "render", "program": _PROV2}, {"t": "fail", "program": _PROV2, "at": 2}], "mode": "isolated", "cache_size": 2, "focus": ["provide.py"]},
+    {"tasks": [{"t": "sharedinst", "x": "A"}, {"t": "sharedinst", "x": "B"}], "mode": "django", "cache_size": 2, "focus": ["component.py"]},
+    # thorough tier only (the quick tier takes the first three pairs)
     {"tasks": [{"t": "fail", "program": _PROV, "at": 2}, {"t": "render", "program": _PROV}], "mode": "django", "cache_size": 2, "focus": ["provide.py"]},
     {"tasks": [{"t": "render", "program": _PROV2}, {"t": "render", "program": _PROV}], "mode": "django", "cache_size": 2, "focus": ["provide.py", "component.py"]},
-    {"tasks": [{"t": "sharedinst", "x": "A"}, {"t": "sharedinst", "x": "B"}], "mode": "django", "cache_size": 2, "focus": ["component.py"]},
 ]
 FIXED_PAIRS = [
     {"tasks": [{"t": "filecomp", "how": 0}, {"t": "filecomp", "how": 1}], "mode": "django", "cache_size": 2},
